@@ -42,6 +42,37 @@ def map_oracle(name, est, y_seen, where, replay):
     return fails
 
 
+def column_targets_oracle(rng):
+    """targets handed over as a column vector (n, 1), as scikit-learn style callers do (accepted by validation with a
+    warning): the map holds the targets themselves - overwriting the caller's array afterwards changes nothing, and
+    predictions are classes seen in training"""
+    import warnings
+    import artlib
+    k, rows = B.gen_kernel_and_rows(rng, "Fuzzy", nmax=10)
+    X = np.array(rows, dtype=float)
+    y = np.array([rng.randrange(3) for _ in rows]).reshape(-1, 1)
+    est = artlib.SimpleARTMAP(B.make_est(k))
+    rep = {"estimator": "SimpleARTMAP(FuzzyART)", "X": X.tolist(), "y_column": y.ravel().tolist(), "how": rng.choice(["fit", "partial_fit"])}
+    try:
+        with warnings.catch_warnings():
+            warnings.simplefilter("ignore")
+            yb = y.copy()
+            getattr(est, rep["how"])(X, yb)
+            before = sorted((int(a), int(np.asarray(b).ravel()[0])) for a, b in est.map.items())
+            yb[:] = 99
+            after = sorted((int(a), int(np.asarray(b).ravel()[0])) for a, b in est.map.items())
+            if before != after:
+                return [{"signature": "SimpleARTMAP/map-aliases-targets", "text": f"the category-to-class map changed from {before} to {after} when the caller overwrote its target array", "replay": rep}]
+            p = [int(v) for v in np.asarray(est.predict(X)).ravel()]
+            if not set(p) <= set(int(v) for v in y.ravel()):
+                return [{"signature": "SimpleARTMAP/predict-seen-class", "text": f"predictions {sorted(set(p))} are not among the training classes {sorted(set(y.ravel().tolist()))}", "replay": rep}]
+    except Exception as e:
+        if isinstance(e, (ValueError, TypeError)) and "fit" in rep["how"] and not hasattr(est, "map"):
+            return []            # a clean rejection of column targets would be fine too
+        return [{"signature": "SimpleARTMAP/column-targets-raise", "text": f"column targets accepted by training, then {type(e).__name__}: {str(e)[:80]}", "replay": rep}]
+    return []
+
+
 def s_oracle(c):
     import artlib
     fails = []
@@ -181,6 +212,8 @@ def main():
         strs_s.append(S.scase_coq(c, obs))
         summ.append(S.summary_s(c))
         fails.extend(s_oracle(c))
+        if len(fails) < 3:
+            fails.extend(column_targets_oracle(rng))
         h = C.case_hash(S.summary_s(c))
         if obs[-1].get("l") and len(obs[-1]["l"]["snap"]["W"]) >= 2 and h not in hashes:
             nontriv += 1
